@@ -223,3 +223,24 @@ func C05_Escapes() {
 	verif.Assert(got.Label == s, "string with escapes reproduced")
 	verif.Reach("checked")
 }
+
+type T5 struct {
+	Name string
+	A    int `bcl:"x"`
+	X    int
+	V    int `bcl:"v"`
+	W    int `bcl:"V"`
+}
+
+// C05_TagCase: tags match exactly (case included) and take precedence; the
+// case-insensitive rule applies to field names only.
+func C05_TagCase() {
+	a, x, v, w := verif.Int("a"), verif.Int("x"), verif.Int("v"), verif.Int("w")
+	blk := bcl.Block{Type: "t5", Fields: map[string]any{"x": a, "X": x, "v": v, "V": w}}
+	var got T5
+	err := bcl.Bind(&got, bcl.StructBinding{Value: blk})
+	verif.Observe("err", err)
+	verif.Assert(err == nil, "bind succeeds")
+	verif.Assert(got.A == a && got.X == x && got.V == v && got.W == w, "exact tags bind their own keys")
+	verif.Reach("checked")
+}
